@@ -1409,7 +1409,8 @@ def instances(tier):
         big = dict(vhi=70000, nwrong=4)
         for f in ('S', 'A', 'L'):
             _wire(out, "%s: read" % f, B, focus=f, ops=['R'], level=2, **big)
-            _wire(out, "%s: rpm x2" % f, B, focus=f, ops=['M'], level=1 if f != 'L' else 2, nrefs=2, **big)
+            _wire(out, "%s: rpm x2" % f, B, focus=f, ops=['M'], level=0 if f != 'L' else 1, nrefs=2, **big)
+            _wire(out, "%s: rpm" % f, B, focus=f, ops=['M'], level=2, nrefs=1, **big)
             _wire(out, "%s: write" % f, B, focus=f, ops=['W'], level=2, kinds=RWN if f != 'A' else RW, prio='both', **big)
         _wire(out, "A: write null", B, focus='A', ops=['W'], level=1, kinds=['null'], prio='both')
         _wire(out, "S: write wrong arity", B, focus='S', ops=['W'], level=1, kinds=['multi', 'empty'], prio='none')
@@ -1424,7 +1425,7 @@ def instances(tier):
         # ---- three requests
         for f in ('S', 'A', 'L'):
             _wire(out, "%s: write, write, read" % f, B, focus=f, ops=['W', 'W', 'R'], level=-1, kinds=['right'], prio='none', follow=0)
-            _wire(out, "%s: write, read|rpm, write|rpm" % f, B, focus=f, ops=['W', 'RM', 'WM'], level=-1, kinds=['right'],
+            _wire(out, "%s: write, read, write|rpm" % f, B, focus=f, ops=['W', 'R', 'WM'], level=-1, kinds=['right'],
                   prio='none', follow=0)
         out.append(Inst(plist_wire, dict(ops='RMSW'), budget=600))
     # ---- object level
